@@ -1,6 +1,7 @@
 import Mitx.Driver.Munkres
 import Mitx.Driver.Attempt
 import Mitx.Driver.Parser
+import Mitx.Driver.Grade
 open Lean
 
 def dispatch (op : String) (j : Json) : Except String Json :=
@@ -8,6 +9,8 @@ def dispatch (op : String) (j : Json) : Except String Json :=
   | "munkres" => Drv.munkres j
   | "sched" => Drv.sched j
   | "parse" => Drv.parse j
+  | "check" => Drv.gradeCheck j
+  | "call" => Drv.gradeCall j
   | "parse_hist" => Drv.parseHist j
   | "eval" => Drv.eval j
   | "apply_attempt" => Drv.applyAtt j
